@@ -7,7 +7,7 @@ impl View for Bytes { type V = Seq<u8>; uninterp spec fn view(&self) -> Seq<u8>;
 
 impl Bytes {
     #[verifier::external_body]
-    pub fn len(&self) -> (r: usize) ensures r == self@.len() { unimplemented!() }
+    pub fn len(&self) -> (r: usize) ensures r == self@.len(), r <= isize::MAX { unimplemented!() }   // allocation invariant
     #[verifier::external_body]
     pub fn is_empty(&self) -> (r: bool) ensures r == (self@.len() == 0) { unimplemented!() }
     #[verifier::external_body]
